@@ -25,6 +25,7 @@ import (
 	"strconv"
 	"strings"
 	"sync"
+	"sync/atomic"
 	"testing"
 	"testing/synctest"
 	"time"
@@ -62,6 +63,7 @@ type runState struct {
 	calls     map[int]int           // exchange -> number of origin calls so far
 	storeIdx  map[string]int
 	pending   int // origin calls entered and not yet returned
+	bodies    []*trackedBody
 	dates     map[string]struct{}
 	inner     driver.Conn
 	dir       string
@@ -279,8 +281,39 @@ func (o *origin) RoundTrip(req *http.Request) (*http.Response, error) {
 		return nil, err
 	}
 	rs.noteDates(resp.Header)
+	// whoever receives a response must release it: read the body to its end (or to an error) or close it;
+	// with a real transport an unreleased body pins its connection for ever
+	// (a response without a body — 304, 204, HEAD, Content-Length: 0 — pins nothing)
+	if resp.Body != http.NoBody {
+		tb := &trackedBody{ReadCloser: resp.Body, n: n, stream: stream, k: k, ctx: ctx}
+		resp.Body = tb
+		rs.mu.Lock()
+		rs.bodies = append(rs.bodies, tb)
+		rs.mu.Unlock()
+	}
 	done("resp")
 	return resp, nil
+}
+
+type trackedBody struct {
+	io.ReadCloser
+	n, k     int
+	stream   string
+	released atomic.Bool
+	ctx      context.Context // a transport tears the connection down when the request's context ends
+}
+
+func (t *trackedBody) Read(p []byte) (int, error) {
+	n, err := t.ReadCloser.Read(p)
+	if err != nil {
+		t.released.Store(true)
+	}
+	return n, err
+}
+
+func (t *trackedBody) Close() error {
+	t.released.Store(true)
+	return t.ReadCloser.Close()
 }
 
 /* ----------------------------- recording conn ----------------------------- */
@@ -822,6 +855,14 @@ func runHistory(t *testing.T, h *History) (lines []string) {
 		leak := rs.pending
 		rs.mu.Unlock()
 		rs.emit("O\tLEAK\t%d", leak)
+		rs.mu.Lock()
+		bodies := rs.bodies
+		rs.mu.Unlock()
+		for _, tb := range bodies {
+			if !tb.released.Load() && tb.ctx.Err() == nil {
+				rs.emit("O\tBODYLEAK\t%d\t%s\t%d", tb.n, tb.stream, tb.k)
+			}
+		}
 		// what the backing store holds once everything has come to rest
 		if kl, ok := rs.inner.(interface {
 			Keys(prefix string) ([]string, error)
